@@ -536,14 +536,14 @@ class Gen:
     def special_arg(self, name):
         base = name.split(":")[-1]
         if base in ("figure", "image", "atf-image"):
-            return self.ch(["/images/a.png", "/images/bad.bin", "/nope.png", "images/a.png", "/images/a.png extra", "http://x/y.png"])
+            return self.ch(["/images/a.png", "/images/bad.bin", "/nope.png", "images/a.png", "/images/a.png extra", "http://x/y.png", "/images/loop.png"])
         if base in ("literalinclude", "input", "output"):
-            return self.ch(["/code/a.py", "/nope.py", "/code/latin1.txt", "/images/bad.bin", "code/a.py", "/code", "/code/empty.txt"])
+            return self.ch(["/code/a.py", "/nope.py", "/code/latin1.txt", "/images/bad.bin", "code/a.py", "/code", "/code/empty.txt", "/code/loop.py", "/code/dangling.py"])
         if base in ("include", "sharedinclude"):
             return self.ch(["/includes/a.rst", "/nope.rst", "x.rst", "/"])
         if base == "openapi":
             return self.ch(["/code/spec.yaml", "/nope.yaml", "http://127.0.0.1:1/x", "cloud", ":ref:`x`", "/code/bad.yaml", "/code/date.yaml",
-                            "/code/alias.yaml", "/code/tab.yaml", "/images/bad.bin", "/code/latin1.txt", "/code/empty.txt", "/code"])
+                            "/code/alias.yaml", "/code/tab.yaml", "/images/bad.bin", "/code/latin1.txt", "/code/empty.txt", "/code", "/code/loop.py"])
         if base == "openapi-changelog":
             return self.ch(["cloud", "x"])
         if base in ("pubdate", "updated-date"):
